@@ -565,6 +565,11 @@ impl<F: Field + PrimeCharacteristicRing + Copy, const D: usize> AluAir<F, D> {
                             let mut acc = prev_ext;
                             for s in 0..num_int {
                                 let i0 = *first_idx + step;
+                                if i0 >= *first_idx + k {
+                                    // Run shorter than `k_max`: the remaining intermediates are
+                                    // not constrained for this arity and stay zero.
+                                    break;
+                                }
                                 let i1 = *first_idx + step + 1;
                                 let v0 = &trace.values[i0];
                                 if i1 < *first_idx + k {
